@@ -341,8 +341,14 @@ func c04Sampled(c *caseCtx) {
 func c04Biased(c *caseCtx) {
 	method := []string{"weightedSum", "owa", "choquetIntegral"}[c.idx%3]
 	o := genOpts{method: method, minAlt: 3, maxAlt: 8, minCrit: 2, maxCrit: 4, allCons: c.idx % 2, negValues: true, allFire: true,
-		nBiases: 1 + c.rng.Intn(2), biasPool: []string{"criteriaMixing", "preferenceReversal", "criteriaOmission", "anchoring"}, profile: []string{profTies, profDyadic}[c.rng.Intn(2)],
-		anchorZeroCoef: true, noRandom: true}
+		profile: []string{profTies, profDyadic}[c.rng.Intn(2)], anchorZeroCoef: true, noRandom: true}
+	// mixing and anchoring produce values that are no longer exactly representable; a later stage that ranks the criteria by
+	// sums over the alternatives would then add them up in listing order and may break an (on paper) tie either way - which
+	// the property does not forbid. So they only come last; before them only omission and reversal (exact on exact data).
+	o.biasSeq = []string{pick(c.rng, []string{"criteriaMixing", "preferenceReversal", "criteriaOmission", "anchoring"})}
+	if c.rng.Intn(2) == 0 {
+		o.biasSeq = append([]string{pick(c.rng, []string{"preferenceReversal", "criteriaOmission"})}, o.biasSeq...)
+	}
 	g := genRequest(c.rng, o)
 	d := decide(g.body(), false)
 	c.count("evaluations", 1)
